@@ -113,7 +113,7 @@ func C10(c *Ctx) {
 	r.Explanation = "(A1) bank movements naming the stream module account and writes/deletes of the stream section are reachable only from the stream MsgServer (and genesis import for the section); " +
 		"(A3) pairing with one origin: top-up sends NewCoins(d) from the sender to the module before storing Deposit := Deposit.Add(d) on every success path; a claim pays the fee collector and the receiver the two results of the fee-split function applied to the claim total, stores Deposit := the remaining-deposit result of the claim-amount function applied to the stored deposit, the payouts being skipped only on amount == 0; cancel settles first, refunds the reloaded remaining deposit to the sender and deletes the stream on every success path; " +
 		"(affine split) both pure split functions return, on every return edge, two coins whose sum is syntactically the input (X−Y with Y, or X with a zero coin); (A5/A2) the stream account is a blocked recipient and stream creation rejects blocked receivers; genesis import returns only when balances equal Σ deposits; (A8) no bank error is dropped. Σ-over-streams and rounding are not decided."
-	r.Rules = []string{"A1.escrow-moves", "A1.stream-writers", "A3.topup-pairing", "A3.claim-pairing", "A3.cancel-pairing", "AFF.split", "A5.blocked-addresses", "A2.blocked-receiver", "A3.no-stale-writeback", "A2.genesis-balance", "A8.bank-errors", "A3.lost-update", "A3.stale-element-pointer", "A3.element-carry", "A7.fee-formula", "A7.export-complete", "A6.no-params-cache"}
+	r.Rules = []string{"A1.escrow-moves", "A1.stream-writers", "A3.topup-pairing", "A3.claim-pairing", "A3.cancel-pairing", "AFF.split", "A5.blocked-addresses", "A2.blocked-receiver", "A3.no-stale-writeback", "A2.genesis-balance", "A8.bank-errors", "A3.lost-update", "A3.stale-element-pointer", "A3.element-carry", "A7.fee-formula", "A7.export-complete", "A6.no-params-cache", "A3.settle-before-change", "A4.last-outflow-writers", "A3.restart-resets-outflow"}
 	lostUpdateControl(c)
 	r.Floor("functions of stream scanned for dropped updates to record copies", lostUpdates(c, "stream"), 15)
 	r.Trusted = []string{"bank transfers move exactly the given coins or fail", "bank refuses transfers to blocked addresses", "sdk.Coin Add/Sub arithmetic"}
@@ -141,6 +141,8 @@ func C10(c *Ctx) {
 	exportComplete(c, "stream")
 	// the fee rate applied is the stored parameter (no copy of the params kept by a keeper)
 	noParamsCache(c)
+	// a stream's deposit goes down only where the settlement moves the coins out: the settlement orderings of C11
+	settleRules(c)
 	// create rejects blocked receivers
 	if h := handlerOf(c, "stream", "CreateStream"); h != nil {
 		for i, s := range mutatingSites(c, h, isStateMutation) {
@@ -784,7 +786,7 @@ func feeFormula(c *Ctx) {
 // ---------------------------------------------------------------------------------------
 
 func C11(c *Ctx) {
-	w, r := c.W, c.R
+	r := c.R
 	r.Explanation = "(A3, guarded ordering) whenever the stored deposit is positive, the settlement claim precedes: the store of a new FlowRate, the refund on cancel, and — for an expired stream — the deposit transfer of a top-up; LastOutflowTime is written only by the claim step and at creation, both with the block time (A4); " +
 		"(A2) stream creation is guarded by not(duration < 60) in the handler and in ValidateBasic, with duration computed from the message's deposit and flow rate; " +
 		"(A9, sink-scoped hazard inventory) in every stream function reachable from the stream MsgServer: no floating-point operation or conversion; every int64*int64 and Duration*Duration product and every int64→uint64 conversion of a computed value is an obligation that must be range-guarded. The payout formula itself is numeric and not decided."
@@ -795,207 +797,7 @@ func C11(c *Ctx) {
 	// the schedule is what the stream handlers store: nobody else writes or deletes a stream
 	whoMayReach(c, "A1.stream-writers", "writes of the stream section", func(e ir.Effect) bool { return e.Kind == "StoreWrite" && e.Section == secStreams }, []string{"MSG:stream", "INITGEN:stream"})
 	whoMayReach(c, "A1.stream-writers", "deletes of the stream section", func(e ir.Effect) bool { return e.Kind == "StoreDelete" && e.Section == secStreams }, []string{"MSG:stream.CancelStream"})
-	noDeposit := func(f *ssa.Function) map[[2]int]bool {
-		return w.EstablishedEdges(f, func(pr ir.Pred) bool {
-			q := pr
-			q.Pol = !q.Pol
-			return depositPositive(c)(q)
-		}, 0)
-	}
-	// "the outstanding flow was settled" = the claim step ran: it is the step that sets LastOutflowTime to the block
-	// time. Orderings are asked on the flat view (the settlement may be reached through a helper that decides
-	// whether there is anything to settle), with the deposit-is-zero edges deleted in every call context.
-	settled := func(cx *ir.FCtx, in ssa.Instruction) bool {
-		return resetsOutflowAt(c, cx, in)
-	}
-	noDepositM := func(pr ir.Pred) bool {
-		q := pr
-		q.Pol = !q.Pol
-		return depositPositive(c)(q)
-	}
-	settledBeforeP := func(f *ssa.Function, target func(ir.FPos) bool, extra map[[2]int]bool) bool {
-		root := w.FlatRoot(f)
-		cut := &ir.FlatCut{Matcher: noDepositM, Depth: 1, Barrier: settled}
-		if extra != nil {
-			cut.Edges = func(ctx *ir.FCtx) map[[2]int]bool {
-				if ctx == root {
-					return extra
-				}
-				return nil
-			}
-		}
-		return w.FlatReaches(root, nil, cut, target) == nil
-	}
-	_, _ = noDeposit, settledBeforeP
-	settledBefore := func(f *ssa.Function, site ssa.Instruction, extra map[[2]int]bool) bool {
-		root := w.FlatRoot(f)
-		cut := &ir.FlatCut{Matcher: noDepositM, Depth: 1, Barrier: settled}
-		if extra != nil {
-			cut.Edges = func(ctx *ir.FCtx) map[[2]int]bool {
-				if ctx == root {
-					return extra
-				}
-				return nil
-			}
-		}
-		return w.FlatReaches(root, nil, cut, func(p ir.FPos) bool { return p.Ctx == root && p.In == site }) == nil
-	}
-	isClaimIn := func(f *ssa.Function) func(ssa.Instruction) bool {
-		return callReaching(c, f, func(e ir.Effect) bool { return e.Method == "SendCoinsFromModuleToModule" })
-	}
-	// functions that belong to the claim step: reached from the consensus roots only through it (its phases and
-	// store helper); what they write is the claim step's business (claim-pairing checks Deposit and LastOutflowTime there)
-	claimFn := map[*ssa.Function]bool{}
-	for _, g := range claimSteps(c) {
-		claimFn[g] = true
-	}
-	outside := map[*ssa.Function]bool{}
-	var q []*ssa.Function
-	for _, rt := range w.RootSet(consensusKinds...) {
-		if !claimFn[rt] && !outside[rt] {
-			outside[rt] = true
-			q = append(q, rt)
-		}
-	}
-	for len(q) > 0 {
-		f := q[0]
-		q = q[1:]
-		for _, ed := range w.Callees(f) {
-			if !claimFn[ed.To] && !outside[ed.To] {
-				outside[ed.To] = true
-				q = append(q, ed.To)
-			}
-		}
-	}
-	// flow-rate update
-	n := 0
-	for _, f := range w.Funcs {
-		if ir.ModuleOf(f) != "stream" || !c.Rooted(f) || w.IsGenerated(f) || w.IsRoot(f) || claimFn[f] || !outside[f] {
-			continue
-		}
-		isSet := callReaching(c, f, func(e ir.Effect) bool { return e.Kind == "StoreWrite" && e.Section == secStreams })
-		for _, s := range findInstrs(f, isSet) {
-			if isClaimIn(f)(s) {
-				continue
-			}
-			call, ok := s.(ssa.CallInstruction)
-			if !ok {
-				continue
-			}
-			args := call.Common().Args
-			st := w.ExprOf(args[len(args)-1])
-			fr := fieldOfStruct(st, "FlowRate")
-			if fr == nil {
-				continue
-			}
-			lo := fieldOfStruct(st, "LastOutflowTime")
-			creating := false
-			if lo != nil && isBlockTime(lo) {
-				creating = true
-			}
-			if !creating && lo != nil {
-				r.Require(streamFieldX(c, lo, "LastOutflowTime"), "A4.last-outflow-writers", fn(f), pos(c, s), "only the claim step and stream creation set LastOutflowTime", "LastOutflowTime = "+lo.String())
-			}
-			if fr.Op == "param" && !creating {
-				n++
-				r.Require(settledBefore(f, s, nil), "A3.settle-before-change", "flow-rate|"+fn(f), pos(c, s), "a new flow rate is stored only after outstanding flow was settled at the old rate (whenever the deposit is positive)", "the store is reachable with a positive deposit and no settlement")
-				// and the stored DepositZeroTime is recomputed from the reloaded deposit
-				zt := fieldOfStruct(st, "DepositZeroTime")
-				if zt != nil {
-					// in canonical form: helpers around the duration calculator expanded, the calculator itself kept
-					zt = w.ExpandKeep(zt, 4, func(g *ssa.Function) bool { return g.Name() == "CalculateDuration" })
-				}
-				r.Require(zt != nil && zt.Any(func(x *ir.Expr) bool { return calleeIs(x, "types.CalculateDuration") }), "A3.settle-before-change", "flow-rate-zero-time|"+fn(f), pos(c, s), "the deposit-zero time is recomputed from the settled remainder and the new rate", fmt.Sprint(zt))
-				if zt != nil {
-					zt.Walk(func(x *ir.Expr) bool {
-						if calleeIs(x, "types.CalculateDuration") && len(x.Args) == 2 {
-							r.Require(streamFieldX(c, x.Args[0], "Deposit") && x.Args[1].String() == fr.String() && reloadedAfter(c, f, isClaimIn(f), s), "A3.settle-before-change", "flow-rate-duration-args|"+fn(f), pos(c, s), "the new duration is CalculateDuration(reloaded deposit, new flow rate)", x.String())
-							return false
-						}
-						return true
-					})
-				}
-			}
-		}
-	}
-	r.Floor("flow-rate stores outside the claim step", n, 1)
-	// top-up of an expired stream: claim before the transfer
-	isSendSite := directSites(c, func(e ir.Effect) bool {
-		return e.Method == "SendCoinsFromAccountToModule" && ir.ModuleOf(e.Fn) == "stream"
-	})
-	for _, f := range topUpSteps(c) {
-		var send ir.Effect
-		for g := range w.Reachable([]*ssa.Function{f}) {
-			for _, e := range w.EffectsOf(g) {
-				if e.Method == "SendCoinsFromAccountToModule" && ir.ModuleOf(g) == "stream" {
-					send = e
-				}
-			}
-		}
-		// edges on which "DepositZeroTime is after now" (not expired) holds: both zt.Before(now) and zt.Equal(now) are
-		// false there. Each half is established on its own edges; an edge carries a half also when it can only be reached
-		// through an edge that does (the else-edge of the second test of `A || B`, or the false edge of `if expired`
-		// with expired := A || B held in a variable). Computed in every call context of the flat view (the classification
-		// may sit in a helper that returns a verdict).
-		notExpiredEdges := func(cx *ir.FCtx) map[[2]int]bool {
-			g := cx.Fn
-			half := func(method string) map[[2]int]bool {
-				es := w.EstablishedEdgesIn(cx, func(pr ir.Pred) bool {
-					e := pr.E
-					return !pr.Pol && calleeIs(e, method) && len(e.Args) == 2 && streamFieldX(c, e.Args[0], "DepositZeroTime") && isBlockTime(e.Args[1])
-				}, 2)
-				out := map[[2]int]bool{}
-				for k := range es {
-					out[k] = true
-				}
-				for _, b := range g.Blocks {
-					if len(b.Instrs) == 0 || b.Index == 0 {
-						continue
-					}
-					if !ir.Reaches(g, b.Instrs[len(b.Instrs)-1], ir.Cut{Edges: es}) {
-						for si := range b.Succs {
-							out[[2]int{b.Index, si}] = true
-						}
-					}
-				}
-				return out
-			}
-			cut := map[[2]int]bool{}
-			notBefore, notEqual := half("time.Time).Before"), half("time.Time).Equal")
-			for k := range notBefore {
-				if notEqual[k] {
-					cut[k] = true
-				}
-			}
-			// ... or it is tested positively: DepositZeroTime.After(now) / now.Before(DepositZeroTime) holds
-			for k := range w.EstablishedEdgesIn(cx, func(pr ir.Pred) bool {
-				e := pr.E
-				if !pr.Pol || len(e.Args) != 2 {
-					return false
-				}
-				return calleeIs(e, "time.Time).After") && streamFieldX(c, e.Args[0], "DepositZeroTime") && isBlockTime(e.Args[1]) ||
-					calleeIs(e, "time.Time).Before") && isBlockTime(e.Args[0]) && streamFieldX(c, e.Args[1], "DepositZeroTime")
-			}, 2) {
-				cut[k] = true
-			}
-			return cut
-		}
-		okTop := w.FlatReaches(w.FlatRoot(f), nil, &ir.FlatCut{Matcher: noDepositM, Depth: 1, Barrier: settled, Edges: notExpiredEdges}, func(p ir.FPos) bool { return isSendSite(p.In) }) == nil
-		r.Require(okTop, "A3.settle-before-change", "topup-expired|"+fn(f), pos(c, send.Site), "topping up an expired stream with a positive deposit first settles the remainder to the receiver", "the transfer is reachable for an expired, funded stream without settlement")
-	}
-	// cancel: covered structurally in C10 (claim<refund); repeated here as the C11 clause
-	for _, f := range w.Funcs {
-		if ir.ModuleOf(f) != "stream" || !c.Rooted(f) || w.IsRoot(f) {
-			continue
-		}
-		dels := findInstrs(f, callReaching(c, f, func(e ir.Effect) bool { return e.Kind == "StoreDelete" && e.Section == secStreams }))
-		for _, e := range w.EffectsOf(f) {
-			if e.Method == "SendCoinsFromModuleToAccount" && len(dels) > 0 {
-				r.Require(settledBefore(f, e.Site, nil), "A3.settle-before-change", "cancel|"+fn(f), pos(c, e.Site), "a cancel settles outstanding flow before refunding", "refund reachable without settlement")
-			}
-		}
-	}
-	restartResetsOutflow(c, isClaimIn)
+	settleRules(c)
 	floorDivision(c)
 	minDuration(c)
 	streamFields(c)
@@ -2252,4 +2054,213 @@ func streamKeepsCancellable(c *Ctx) {
 		}
 	}
 	r.Floor("stream stores on the top-up, claim and flow-rate routes judged for the Cancellable flag", n, 3)
+}
+
+// settleRules: the settlement orderings of C11 (A3.settle-before-change, A4.last-outflow-writers, A3.restart-resets-outflow) —
+// whenever the stored deposit is positive the claim step precedes a new flow rate, a refund and the top-up of an expired
+// stream, and only the claim step and creation set LastOutflowTime. C10 runs them too: a deposit is reduced only together
+// with coins moved out of the escrow.
+func settleRules(c *Ctx) {
+	w, r := c.W, c.R
+	noDeposit := func(f *ssa.Function) map[[2]int]bool {
+		return w.EstablishedEdges(f, func(pr ir.Pred) bool {
+			q := pr
+			q.Pol = !q.Pol
+			return depositPositive(c)(q)
+		}, 0)
+	}
+	// "the outstanding flow was settled" = the claim step ran: it is the step that sets LastOutflowTime to the block
+	// time. Orderings are asked on the flat view (the settlement may be reached through a helper that decides
+	// whether there is anything to settle), with the deposit-is-zero edges deleted in every call context.
+	settled := func(cx *ir.FCtx, in ssa.Instruction) bool {
+		return resetsOutflowAt(c, cx, in)
+	}
+	noDepositM := func(pr ir.Pred) bool {
+		q := pr
+		q.Pol = !q.Pol
+		return depositPositive(c)(q)
+	}
+	settledBeforeP := func(f *ssa.Function, target func(ir.FPos) bool, extra map[[2]int]bool) bool {
+		root := w.FlatRoot(f)
+		cut := &ir.FlatCut{Matcher: noDepositM, Depth: 1, Barrier: settled}
+		if extra != nil {
+			cut.Edges = func(ctx *ir.FCtx) map[[2]int]bool {
+				if ctx == root {
+					return extra
+				}
+				return nil
+			}
+		}
+		return w.FlatReaches(root, nil, cut, target) == nil
+	}
+	_, _ = noDeposit, settledBeforeP
+	settledBefore := func(f *ssa.Function, site ssa.Instruction, extra map[[2]int]bool) bool {
+		root := w.FlatRoot(f)
+		cut := &ir.FlatCut{Matcher: noDepositM, Depth: 1, Barrier: settled}
+		if extra != nil {
+			cut.Edges = func(ctx *ir.FCtx) map[[2]int]bool {
+				if ctx == root {
+					return extra
+				}
+				return nil
+			}
+		}
+		return w.FlatReaches(root, nil, cut, func(p ir.FPos) bool { return p.Ctx == root && p.In == site }) == nil
+	}
+	isClaimIn := func(f *ssa.Function) func(ssa.Instruction) bool {
+		return callReaching(c, f, func(e ir.Effect) bool { return e.Method == "SendCoinsFromModuleToModule" })
+	}
+	// functions that belong to the claim step: reached from the consensus roots only through it (its phases and
+	// store helper); what they write is the claim step's business (claim-pairing checks Deposit and LastOutflowTime there)
+	claimFn := map[*ssa.Function]bool{}
+	for _, g := range claimSteps(c) {
+		claimFn[g] = true
+	}
+	outside := map[*ssa.Function]bool{}
+	var q []*ssa.Function
+	for _, rt := range w.RootSet(consensusKinds...) {
+		if !claimFn[rt] && !outside[rt] {
+			outside[rt] = true
+			q = append(q, rt)
+		}
+	}
+	for len(q) > 0 {
+		f := q[0]
+		q = q[1:]
+		for _, ed := range w.Callees(f) {
+			if !claimFn[ed.To] && !outside[ed.To] {
+				outside[ed.To] = true
+				q = append(q, ed.To)
+			}
+		}
+	}
+	// flow-rate update
+	n := 0
+	for _, f := range w.Funcs {
+		if ir.ModuleOf(f) != "stream" || !c.Rooted(f) || w.IsGenerated(f) || w.IsRoot(f) || claimFn[f] || !outside[f] {
+			continue
+		}
+		isSet := callReaching(c, f, func(e ir.Effect) bool { return e.Kind == "StoreWrite" && e.Section == secStreams })
+		for _, s := range findInstrs(f, isSet) {
+			if isClaimIn(f)(s) {
+				continue
+			}
+			call, ok := s.(ssa.CallInstruction)
+			if !ok {
+				continue
+			}
+			args := call.Common().Args
+			st := w.ExprOf(args[len(args)-1])
+			fr := fieldOfStruct(st, "FlowRate")
+			if fr == nil {
+				continue
+			}
+			lo := fieldOfStruct(st, "LastOutflowTime")
+			creating := false
+			if lo != nil && isBlockTime(lo) {
+				creating = true
+			}
+			if !creating && lo != nil {
+				r.Require(streamFieldX(c, lo, "LastOutflowTime"), "A4.last-outflow-writers", fn(f), pos(c, s), "only the claim step and stream creation set LastOutflowTime", "LastOutflowTime = "+lo.String())
+			}
+			if fr.Op == "param" && !creating {
+				n++
+				r.Require(settledBefore(f, s, nil), "A3.settle-before-change", "flow-rate|"+fn(f), pos(c, s), "a new flow rate is stored only after outstanding flow was settled at the old rate (whenever the deposit is positive)", "the store is reachable with a positive deposit and no settlement")
+				// and the stored DepositZeroTime is recomputed from the reloaded deposit
+				zt := fieldOfStruct(st, "DepositZeroTime")
+				if zt != nil {
+					// in canonical form: helpers around the duration calculator expanded, the calculator itself kept
+					zt = w.ExpandKeep(zt, 4, func(g *ssa.Function) bool { return g.Name() == "CalculateDuration" })
+				}
+				r.Require(zt != nil && zt.Any(func(x *ir.Expr) bool { return calleeIs(x, "types.CalculateDuration") }), "A3.settle-before-change", "flow-rate-zero-time|"+fn(f), pos(c, s), "the deposit-zero time is recomputed from the settled remainder and the new rate", fmt.Sprint(zt))
+				if zt != nil {
+					zt.Walk(func(x *ir.Expr) bool {
+						if calleeIs(x, "types.CalculateDuration") && len(x.Args) == 2 {
+							r.Require(streamFieldX(c, x.Args[0], "Deposit") && x.Args[1].String() == fr.String() && reloadedAfter(c, f, isClaimIn(f), s), "A3.settle-before-change", "flow-rate-duration-args|"+fn(f), pos(c, s), "the new duration is CalculateDuration(reloaded deposit, new flow rate)", x.String())
+							return false
+						}
+						return true
+					})
+				}
+			}
+		}
+	}
+	r.Floor("flow-rate stores outside the claim step", n, 1)
+	// top-up of an expired stream: claim before the transfer
+	isSendSite := directSites(c, func(e ir.Effect) bool {
+		return e.Method == "SendCoinsFromAccountToModule" && ir.ModuleOf(e.Fn) == "stream"
+	})
+	for _, f := range topUpSteps(c) {
+		var send ir.Effect
+		for g := range w.Reachable([]*ssa.Function{f}) {
+			for _, e := range w.EffectsOf(g) {
+				if e.Method == "SendCoinsFromAccountToModule" && ir.ModuleOf(g) == "stream" {
+					send = e
+				}
+			}
+		}
+		// edges on which "DepositZeroTime is after now" (not expired) holds: both zt.Before(now) and zt.Equal(now) are
+		// false there. Each half is established on its own edges; an edge carries a half also when it can only be reached
+		// through an edge that does (the else-edge of the second test of `A || B`, or the false edge of `if expired`
+		// with expired := A || B held in a variable). Computed in every call context of the flat view (the classification
+		// may sit in a helper that returns a verdict).
+		notExpiredEdges := func(cx *ir.FCtx) map[[2]int]bool {
+			g := cx.Fn
+			half := func(method string) map[[2]int]bool {
+				es := w.EstablishedEdgesIn(cx, func(pr ir.Pred) bool {
+					e := pr.E
+					return !pr.Pol && calleeIs(e, method) && len(e.Args) == 2 && streamFieldX(c, e.Args[0], "DepositZeroTime") && isBlockTime(e.Args[1])
+				}, 2)
+				out := map[[2]int]bool{}
+				for k := range es {
+					out[k] = true
+				}
+				for _, b := range g.Blocks {
+					if len(b.Instrs) == 0 || b.Index == 0 {
+						continue
+					}
+					if !ir.Reaches(g, b.Instrs[len(b.Instrs)-1], ir.Cut{Edges: es}) {
+						for si := range b.Succs {
+							out[[2]int{b.Index, si}] = true
+						}
+					}
+				}
+				return out
+			}
+			cut := map[[2]int]bool{}
+			notBefore, notEqual := half("time.Time).Before"), half("time.Time).Equal")
+			for k := range notBefore {
+				if notEqual[k] {
+					cut[k] = true
+				}
+			}
+			// ... or it is tested positively: DepositZeroTime.After(now) / now.Before(DepositZeroTime) holds
+			for k := range w.EstablishedEdgesIn(cx, func(pr ir.Pred) bool {
+				e := pr.E
+				if !pr.Pol || len(e.Args) != 2 {
+					return false
+				}
+				return calleeIs(e, "time.Time).After") && streamFieldX(c, e.Args[0], "DepositZeroTime") && isBlockTime(e.Args[1]) ||
+					calleeIs(e, "time.Time).Before") && isBlockTime(e.Args[0]) && streamFieldX(c, e.Args[1], "DepositZeroTime")
+			}, 2) {
+				cut[k] = true
+			}
+			return cut
+		}
+		okTop := w.FlatReaches(w.FlatRoot(f), nil, &ir.FlatCut{Matcher: noDepositM, Depth: 1, Barrier: settled, Edges: notExpiredEdges}, func(p ir.FPos) bool { return isSendSite(p.In) }) == nil
+		r.Require(okTop, "A3.settle-before-change", "topup-expired|"+fn(f), pos(c, send.Site), "topping up an expired stream with a positive deposit first settles the remainder to the receiver", "the transfer is reachable for an expired, funded stream without settlement")
+	}
+	// cancel: covered structurally in C10 (claim<refund); repeated here as the C11 clause
+	for _, f := range w.Funcs {
+		if ir.ModuleOf(f) != "stream" || !c.Rooted(f) || w.IsRoot(f) {
+			continue
+		}
+		dels := findInstrs(f, callReaching(c, f, func(e ir.Effect) bool { return e.Kind == "StoreDelete" && e.Section == secStreams }))
+		for _, e := range w.EffectsOf(f) {
+			if e.Method == "SendCoinsFromModuleToAccount" && len(dels) > 0 {
+				r.Require(settledBefore(f, e.Site, nil), "A3.settle-before-change", "cancel|"+fn(f), pos(c, e.Site), "a cancel settles outstanding flow before refunding", "refund reachable without settlement")
+			}
+		}
+	}
+	restartResetsOutflow(c, isClaimIn)
 }
